@@ -90,6 +90,16 @@ CLAIMED["C14"] = dict(
     technique="exhaustive bounded path enumeration of the real code by the symbolic executor (structural forks only; z3 not exercised)",
     design="§3 C14")
 
+CLAIMED["C19"] = dict(
+    text="Bounded symbolic execution of the real fail_stale_trials + RetryFailedTrialCallback and of the real staleness arithmetic of "
+         "RDBStorage._get_stale_trial_ids (over a fake SQL session) with z3-real heartbeat instants/clock and z3-int heartbeat_interval/"
+         "grace_period; two workers run the sweep (then ask) in hand-over-hand threads, the interleaving of atomic storage calls and one "
+         "worker crash at any point are explorer choices. z3 discharges: FAIL iff stale, callback at most once, at most one retry per failure "
+         "and chain <= max_retry, retry contents, others untouched.",
+    note="storage calls atomic (RDB transactions); SQL and DB clock outside; datetimes modelled as symbolic seconds with timedelta "
+         "normalisation; <=3 trials, 2 workers",
+    design="§3 C19")
+
 NOT_APPLICABLE = {
     "C03": "thread/process pre-emption at source-line granularity inside the storage layer cannot be made a symbolic variable over the "
            "real Python code by a solver-based executor; its atomic-step obligations are discharged under C01/C04/C06/C07",
